@@ -123,7 +123,7 @@ def dstep (s : DState) (ws : List String) : DState × String :=
     match getL l, parseInt? stopAt, mask.toNat? with
     | some (i, hd), some k, some mask =>
       let r := foreach s.m hd (dir == "f")
-        (fun c _ => (if (c : Int) = k then 7 else 0, (mask >>> c) % 2 == 1)) (fun e => 100 + e)
+        (fun c _ => (if (c : Int) = k then stopValue k else 0, (mask >>> c) % 2 == 1)) (fun e => 100 + e)
       upd1 i (r.1, r.2.1) (toString r.2.2.2 ++ " " ++ showList r.2.2.1)
     | _, _, _ => bad
   | ["find", l, dir, k] =>
